@@ -337,6 +337,39 @@ func c06AttachHeaders(r *vfRand, in *c06In, focus bool) int {
 	}
 }
 
+// c06NumLit writes the second t (or t + a fraction) as a JSON value of the given shape.
+func c06NumLit(r *vfRand, shape string, t int64) string {
+	d := fmt.Sprint(t)
+	sci := func(digits string, up bool) string { // d.ddd e (len-1): the same decimal number
+		e := "e"
+		if up {
+			e = r.PickStr("E", "e+", "E+")
+		}
+		return digits[:1] + "." + digits[1:] + e + fmt.Sprint(len(d)-1)
+	}
+	switch shape {
+	case "frac":
+		return d + r.PickStr(".5", ".25", ".001", ".0", ".75")
+	case "exp":
+		return sci(d, false)
+	case "expup":
+		return sci(d, true)
+	case "fracexp":
+		return sci(d+r.PickStr("5", "25", "001"), r.Bool())
+	case "string":
+		return `"` + d + `"`
+	case "neg":
+		return "-" + r.PickStr(d, d+".5", "1", "0.5", "1e0")
+	case "zeroish":
+		return r.PickStr("0", "0.0", "0e0", "0.5", "0.999", "-0", "5e-1", "null", "true", "[]")
+	case "huge":
+		return r.PickStr("253402300800", "9e18", "4102444800.5", "1e12", "99999999999")
+	case "fracsmall":
+		return r.PickStr("1.5", "1e0", "1600000000.5", "1.6e9", "16E8", "1.7e9", "1.8e9", "18e8", "1800000000.25")
+	}
+	return d
+}
+
 const c06B64URL = "ABCDEFGHIJKLMNOPQRSTUVWXYZabcdefghijklmnopqrstuvwxyz0123456789-_"
 
 func c06AttachJWT(r *vfRand, in *c06In, focus, mustCookie, adv bool) int {
@@ -349,9 +382,9 @@ func c06AttachJWT(r *vfRand, in *c06In, focus, mustCookie, adv bool) int {
 	now := in.JNow
 	variant := 0
 	if focus {
-		variant = r.Intn(20)
+		variant = r.Intn(32)
 		if adv && r.Chance(1, 2) {
-			variant = 5
+			variant = 20 + r.Intn(12)
 		}
 	} else if r.Chance(1, 6) {
 		variant = 8
@@ -440,9 +473,19 @@ func c06AttachJWT(r *vfRand, in *c06In, focus, mustCookie, adv bool) int {
 	case 18: // exp = 0 means "not set"
 		kind = 48
 		claims["exp"] = 0
-	default: // claims not an object
+	case 19: // claims not an object
 		kind = 49
 		claims = nil
+	default: // a time claim in every JSON number shape, on both sides of now
+		shapes := []string{"frac", "exp", "fracexp", "string", "neg", "zeroish", "huge", "fracsmall", "expup", "int"}
+		si := r.Intn(len(shapes))
+		name := r.PickStr("exp", "exp", "nbf", "nbf", "iat")
+		t := now + int64(r.PickInt(-3600, -60, -2, -1, 0, 1, 2, 60, 3600))
+		delete(claims, "exp")
+		delete(claims, "nbf")
+		delete(claims, "iat")
+		claims[name] = json.RawMessage(c06NumLit(r, shapes[si], t))
+		kind = 70 + si
 	}
 	cj, _ := json.Marshal(claims)
 	if claims == nil {
@@ -879,6 +922,20 @@ func c06Enum(step int) []c06In {
 			}
 			out = append(out, c06In{Cfg: cfg, JNow: 1700000000, Kind: kind, Note: fmt.Sprintf("token byte %d", i),
 				Req: c06Req{Method: "GET", Path: "/", Host: "example.com", Headers: [][2]string{{"Authorization", "Bearer " + t}}}})
+		}
+	}
+	// JWT: exp / nbf / iat on both sides of now in every JSON number shape (always, not sampled)
+	{
+		const now = 1700000000
+		cfg := c06Cfg{JWT: &c06JWTCfg{Alg: "HS256", Secret: "6d79736563726574"}}
+		for _, name := range []string{"exp", "nbf", "iat"} {
+			for _, lit := range []string{"1699999999", "1700000001", "1699999999.5", "1700000001.5", "1700000000.5", "1.699999999e9",
+				"1.700000001e9", "1.6e9", "1.8e9", "16E8", "18E+8", "16999999995e-1", "17000000015e-1", `"1699999999"`, `"1700000001"`,
+				"-1", "0", "0.5", "null", "1e12", "1600000000.000001"} {
+				tok := c06Issue("HS256", cfg.JWT.Secret, `{"alg":"HS256","typ":"JWT"}`, fmt.Sprintf(`{"sub":"alice","%s":%s}`, name, lit))
+				out = append(out, c06In{Cfg: cfg, JNow: now, Kind: 69, Note: name + "=" + lit,
+					Req: c06Req{Method: "GET", Path: "/", Host: "example.com", Headers: [][2]string{{"Authorization", "Bearer " + tok}}}})
+			}
 		}
 	}
 	// Basic: every byte of user and password
